@@ -1,6 +1,7 @@
 import AcraModel.Envelope.Poison
 import AcraModel.Envelope.ScanLemmas
 import AcraModel.Envelope.SafeCompatSame
+import AcraModel.Envelope.MaskLemmas
 /-!
 Lemmas about the traced column scan of `Poison.lean` (C15).
 
@@ -926,5 +927,325 @@ theorem translator_poison (c : CryptoOps) (cfg : PoisonCfg) (k : Kind) (e pre su
   refine Nat.le_trans ?_ (scanT_alarm_ge _ pre (serBytes e k.id ++ suf) ?_ (by simp [serBytes_ne_nil]))
   · exact headAlarms_poison c cfg [] [] k e suf hcb he hlen (by intro g hg; cases hg) hpo
   · rw [← List.append_assoc]; exact hpre
+
+
+/-! ## where an alarm of the SQL proxies' column processor can come from -/
+
+/-- the callback list the legacy scans of the compatibility wrapper run with when poison callbacks
+are configured: wrapper, poison detector (output only), decrypt handler -/
+def proxyStack (c : CryptoOps) (cfg : PoisonCfg) (kv : KeyView) : List Callback :=
+  [fun _ => Cb.same, fun x => (poisonCallback c cfg x).1, decryptCallback c kv]
+
+/-- `s` is one of the byte strings the SQL proxies' column processor can hand to the poison detector
+while processing the column value `d`:
+1. the rest of the value from a position where the container tag `%%%` starts;
+2. the serialized container the compatibility wrapper builds around a non-empty contiguous part of `d`
+   that the legacy AcraStruct scan cut out;
+3. the serialized container it builds around a non-empty contiguous part of `o1` – the OUTPUT of the
+   legacy AcraStruct scan, in which bare AcraStructs the client could decrypt have been replaced by
+   their plaintext – that the legacy AcraBlock scan cut out. -/
+def SeenByDetector (c : CryptoOps) (cfg : PoisonCfg) (kv : KeyView) (d s : Bytes) : Prop :=
+  (∃ i, i < d.length ∧ startsWith containerTag (d.drop i) = true ∧ s = d.drop i) ∨
+  (∃ x, x <:+: d ∧ x ≠ [] ∧ s = serBytes x idStruct) ∨
+  (∃ o1 x, (if d.length < structMin then Out.ok d
+      else processStructs (onBare (proxyStack c cfg kv) idStruct) d) = .ok o1 ∧
+    x <:+: o1 ∧ x ≠ [] ∧ s = serBytes x idBlock)
+
+theorem proxyOnColumn_alarm (c : CryptoOps) (cfg : PoisonCfg) (kv : KeyView) (d : Bytes)
+    (h : 1 ≤ (proxyOnColumn c cfg kv d).2) :
+    cfg.hasCallbacks = true ∧ ∃ s, SeenByDetector c cfg kv d s ∧ isPoison c cfg.pk s = true := by
+  unfold proxyOnColumn at h
+  have hcb : cfg.hasCallbacks = true := by
+    rcases onColumnCompatT_alarm _ d h with ⟨_, _, _, hf⟩ | ⟨_, _, _, hf⟩ | ⟨_, _, _, _, _, hf⟩ <;>
+      exact (proxyCallbacks_alarm hf).1
+  have hout : (fun _ => Cb.same) :: outCbs (proxyCallbacks c cfg kv) = proxyStack c cfg kv := by
+    unfold proxyCallbacks proxyStack; rw [hcb]; rfl
+  refine ⟨hcb, ?_⟩
+  rcases onColumnCompatT_alarm _ d h with ⟨i, hi, hst, hf⟩ | ⟨x, hx, hne, hf⟩ | ⟨o1, ho1, x, hx, hne, hf⟩
+  · exact ⟨_, Or.inl ⟨i, hi, hst, rfl⟩, (proxyCallbacks_alarm hf).2⟩
+  · exact ⟨_, Or.inr (Or.inl ⟨x, hx, hne, rfl⟩), (proxyCallbacks_alarm hf).2⟩
+  · rw [hout] at ho1
+    exact ⟨_, Or.inr (Or.inr ⟨o1, x, ho1, hx, hne, rfl⟩), (proxyCallbacks_alarm hf).2⟩
+
+theorem translator_alarm (c : CryptoOps) (cfg : PoisonCfg) (kv : KeyView) (k : Kind) (d : Bytes)
+    (h : 1 ≤ (translatorDecrypt c cfg kv k d).2) :
+    cfg.hasCallbacks = true ∧ (translatorDecrypt c cfg kv k d).1 = .err ∧
+    ∃ i, i < d.length ∧ startsWith containerTag (d.drop i) = true ∧ isPoison c cfg.pk (d.drop i) = true := by
+  unfold translatorDecrypt at h ⊢
+  cases hd : decryptWithHandler c kv k d with
+  | ok m => rw [hd] at h; simp at h
+  | panic => rw [hd] at h; simp at h
+  | err =>
+    rw [hd] at h
+    simp only at h ⊢
+    obtain ⟨i, hi, hst, n, cont, hx, f, hf, hfa⟩ := onColumnT_alarm _ d h
+    have := extractContainer_of_containerTag (startsWith_containerTag hst) hx
+    subst this
+    split at hf
+    · next hcb =>
+      rw [List.mem_singleton.1 hf, poisonCallback_alarm] at hfa
+      simp only [Bool.and_eq_true] at hfa
+      exact ⟨hcb, trivial, i, hi, hst, hfa.2⟩
+    · cases hf
+
+/-- **accepted by the poison keys ⇒ genuine** (ideal authenticity of the seal): the internal envelope of
+a container the poison detector reports is sealed under one of the poison keys -/
+theorem isPoison_genuine (c : CryptoOps) (hs : SealLaws c) (pk : KeyView) (s : Bytes) (h : isPoison c pk s = true) :
+    ∃ internal id m, deserialize s = .ok (internal, id) ∧ reveal c pk s = .ok m ∧
+      ((id = idBlock ∧ ∃ ks, pk.syms = some ks ∧ ∃ key ∈ ks, ∃ dek n1 n2,
+          n1.length = nonceLen ∧ n2.length = nonceLen ∧
+          c.enc key [] dek n2 = some (blockEncKey internal) ∧ c.enc dek [] m n1 = some (blockEncData internal)) ∨
+       (id = idStruct ∧ ∃ ps, pk.privs = some ps ∧ ∃ priv ∈ ps, ∃ symKey n2, n2.length = nonceLen ∧ symKey ≠ [] ∧
+          c.unwrap priv ((internal.drop 8).take 45) ((internal.drop 53).take 84) = some symKey ∧
+          c.enc symKey [] m n2 = some (internal.drop 145))) := by
+  obtain ⟨m, hm⟩ := isPoison_eq_true.1 h
+  obtain ⟨k, i, hd, hk⟩ := process_ok hm
+  refine ⟨i, k.id, m, hd, hm, ?_⟩
+  cases k with
+  | block =>
+    left
+    obtain ⟨_, _, _, ks, hks, hdec⟩ := decryptKind_block_ok hk
+    obtain ⟨_, _, _, key, hmem, dek, _, hkd, hdd⟩ := decryptBlock_ok_parts hdec
+    obtain ⟨n2, hn2, e2⟩ := hs.enc_of_dec _ _ _ _ hkd
+    obtain ⟨n1, hn1, e1⟩ := hs.enc_of_dec _ _ _ _ hdd
+    exact ⟨rfl, ks, hks, key, hmem, dek, n1, n2, hn1, hn2, e2, e1⟩
+  | struct =>
+    right
+    obtain ⟨ps, hps, priv, hpm, hdec⟩ := decryptKind_struct_ok hk
+    obtain ⟨_, symKey, hne, hu, hdd⟩ := decryptStruct_ok_parts hdec
+    obtain ⟨n2, hn2, e2⟩ := hs.enc_of_dec _ _ _ _ hdd
+    exact ⟨rfl, ps, hps, priv, hpm, symKey, n2, hn2, hne, hu, e2⟩
+
+
+/-! ## data that never raises the alarm -/
+
+theorem headAlarms_of_head_ne (cbs : List CallbackT) (x : UInt8) (r : Bytes) (hx : x ≠ 37) :
+    headAlarms cbs (x :: r) = 0 := by
+  have ht : containerTag = [37, 37, 37] := by decide
+  have : startsWith containerTag (x :: r) = false := by
+    unfold startsWith
+    rw [ht]
+    simp [hx]
+  unfold headAlarms
+  simp [this]
+
+/-- no `%` byte: no position is looked at, no alarm -/
+theorem scanT_snd_plain (cbs : List CallbackT) (buf : Bytes) (h : ∀ x ∈ buf, x ≠ 37) : (scanT cbs buf).2 = 0 := by
+  induction buf with
+  | nil => rw [scanT_nil]
+  | cons b r ih =>
+    have hb : b ≠ 37 := h b List.mem_cons_self
+    rw [scanT_snd_skip (c01_headStep_of_head_ne (outCbs cbs) b r hb), headAlarms_of_head_ne cbs b r hb,
+      ih (fun x hx => h x (List.mem_cons_of_mem _ hx))]
+
+/-- exact alarm count for one container between bytes without `%`: what was raised at the container -/
+theorem scanT_snd_embedded (cbs : List CallbackT) (pre C suf m : Bytes)
+    (hpre : ∀ x ∈ pre, x ≠ 37) (hsuf : ∀ x ∈ suf, x ≠ 37)
+    (hC : C ≠ []) (hhit : headStep (outCbs cbs) (C ++ suf) = .replace m C.length) :
+    (scanT cbs (pre ++ C ++ suf)).2 = headAlarms cbs (C ++ suf) := by
+  induction pre with
+  | nil =>
+    rw [List.nil_append]
+    cases hcs : C ++ suf with
+    | nil => simp [hC] at hcs
+    | cons b r =>
+      rw [hcs] at hhit
+      rw [scanT_cons, hhit]
+      simp only
+      rw [← hcs, List.drop_left, scanT_snd_plain cbs suf hsuf, Nat.zero_add]
+  | cons b p ih =>
+    have hb : b ≠ 37 := hpre b List.mem_cons_self
+    rw [List.cons_append, List.cons_append,
+      scanT_snd_skip (c01_headStep_of_head_ne (outCbs cbs) b _ hb), headAlarms_of_head_ne cbs b _ hb,
+      ih (fun x hx => hpre x (List.mem_cons_of_mem _ hx)), Nat.add_zero]
+
+theorem startsWith_tag_mem {d : Bytes} {i : Nat} (hi : i < d.length)
+    (h : startsWith containerTag (d.drop i) = true) : (37 : UInt8) ∈ d := by
+  have h3 := startsWith_containerTag h
+  rw [List.drop_eq_getElem_cons hi] at h3
+  have ht : containerTag = [37, 37, 37] := by decide
+  rw [ht] at h3
+  simp only [List.take_succ_cons, List.cons.injEq] at h3
+  rw [← h3.1]
+  exact List.getElem_mem hi
+
+/-- the legacy scans leave a buffer without `"` alone and never call the handler -/
+theorem processStructs_noTag (proc : Bytes → Out Bytes) (d : Bytes) (h : ∀ x ∈ d, x ≠ 34) :
+    processStructs proc d = .ok d := by
+  induction d with
+  | nil => exact processStructs.eq_1 proc
+  | cons b r ih =>
+    have hb : b ≠ 34 := h b List.mem_cons_self
+    have ht : structTag = [34,34,34,34,34,34,34,34] := by decide
+    have hs : (!startsWith structTag (b :: r)) = true := by
+      unfold startsWith
+      rw [ht]
+      simp [hb]
+    rw [processStructs.eq_2, if_pos hs, ih (fun x hx => h x (List.mem_cons_of_mem _ hx))]
+    rfl
+
+/-- a serialized container around `x` that some key view opens: `x` begins with the four `"` of the
+AcraBlock tag (an AcraStruct begins with eight) -/
+theorem serBytes_opened_tag (c : CryptoOps) (pk : KeyView) (x : Bytes) (k : Kind) (m : Bytes)
+    (hx : x ≠ []) (hlen : x.length + 12 < 2^64) (h : process c pk (serBytes x k.id) = .ok m) :
+    x.take 4 = blockTag := by
+  obtain ⟨k', i, hd, hk⟩ := process_ok h
+  have hds := c01_deserialize_ser (id := k.id) (k := k) [] hx (c01_kindOfId_id k) hlen
+  rw [List.append_nil] at hds
+  rw [hds] at hd
+  simp only [Out.ok.injEq, Prod.mk.injEq] at hd
+  obtain ⟨rfl, _⟩ := hd
+  cases k' with
+  | block =>
+    obtain ⟨hh, _⟩ := decryptKind_block_ok hk
+    exact ((blockHeaderOk_iff x).1 hh).1
+  | struct =>
+    obtain ⟨ps, _, priv, _, hdec⟩ := decryptKind_struct_ok hk
+    have h8 := (validateStruct_ok (decryptStruct_ok_parts hdec).1).2.1
+    have : x.take 4 = (x.take 8).take 4 := by rw [List.take_take]; rfl
+    rw [this, h8]
+    decide
+
+theorem mem_of_take4_blockTag {x : Bytes} (h : x.take 4 = blockTag) : (34 : UInt8) ∈ x := by
+  have ht : blockTag = [34, 34, 34, 34] := by decide
+  rw [ht] at h
+  cases x with
+  | nil => simp at h
+  | cons a r =>
+    simp only [List.take_succ_cons, List.cons.injEq] at h
+    rw [h.1]
+    exact List.mem_cons_self
+
+theorem mem_of_infix {x d : Bytes} {a : UInt8} (hx : x <:+: d) (ha : a ∈ x) : a ∈ d := by
+  obtain ⟨s, t, rfl⟩ := hx
+  simp [ha]
+
+/-- **ordinary data never raises the alarm**: a column value without `%` and without `"` bytes is
+seen by no callback at all (no crypto assumption, any keys, any configuration) -/
+theorem proxyOnColumn_plain (c : CryptoOps) (cfg : PoisonCfg) (kv : KeyView) (d : Bytes) (hl : d.length + 12 < 2^64)
+    (h37 : ∀ x ∈ d, x ≠ 37) (h34 : ∀ x ∈ d, x ≠ 34) : (proxyOnColumn c cfg kv d).2 = 0 := by
+  cases hn : (proxyOnColumn c cfg kv d).2 with
+  | zero => rfl
+  | succ n =>
+    exfalso
+    obtain ⟨_, s, hseen, hpo⟩ := proxyOnColumn_alarm c cfg kv d (by omega)
+    obtain ⟨m, hm⟩ := isPoison_eq_true.1 hpo
+    rcases hseen with ⟨i, hi, hst, _⟩ | ⟨x, hx, hne, rfl⟩ | ⟨o1, x, ho1, hx, hne, rfl⟩
+    · exact h37 37 (startsWith_tag_mem hi hst) rfl
+    · have hxl := infix_length_le hx
+      have := mem_of_infix hx (mem_of_take4_blockTag (serBytes_opened_tag c cfg.pk x .struct m hne (by omega) hm))
+      exact h34 34 this rfl
+    · have ho : o1 = d := by
+        split at ho1
+        · cases ho1; rfl
+        · rw [processStructs_noTag _ d h34] at ho1; cases ho1; rfl
+      subst ho
+      have hxl := infix_length_le hx
+      have := mem_of_infix hx (mem_of_take4_blockTag (serBytes_opened_tag c cfg.pk x .block m hne (by omega) hm))
+      exact h34 34 this rfl
+
+/-- **an ordinary protected value of a client never raises the alarm**: a serialized container that the
+reader's keys open to `m` and the poison keys do not open, between bytes without `%`: the client
+receives `before ++ m ++ after`, alarm count 0 – with or without configured callbacks -/
+theorem proxyOnColumn_client_value (c : CryptoOps) (cfg : PoisonCfg) (kv : KeyView) (k : Kind) (e pre suf m : Bytes)
+    (he : e ≠ []) (hlen : e.length + 12 < 2^63)
+    (hproc : process c kv (serBytes e k.id ++ suf) = .ok m) (hne : m ≠ serBytes e k.id ++ suf)
+    (hnp : isPoison c cfg.pk (serBytes e k.id ++ suf) = false)
+    (hpre : ∀ x ∈ pre, x ≠ 37) (hsuf : ∀ x ∈ suf, x ≠ 37) :
+    proxyOnColumn c cfg kv (pre ++ serBytes e k.id ++ suf) = (.ok (pre ++ m ++ suf) true, 0) := by
+  have hdec : decryptCallback c kv (serBytes e k.id ++ suf) = .replaced m := by
+    unfold decryptCallback; rw [hproc]; simp [hne]
+  have hpc : poisonCallback c cfg (serBytes e k.id ++ suf) = (.same, false) := by
+    unfold poisonCallback; rw [hnp]; simp
+  have hrunT : runCallbacksT (serBytes e k.id ++ suf) (plainT (fun _ => Cb.same) :: proxyCallbacks c cfg kv) =
+      (.replace m, 0) := by
+    unfold proxyCallbacks
+    cases cfg.hasCallbacks <;> simp [runCallbacksT, plainT, hdec, hpc]
+  have hrun : runCallbacks (serBytes e k.id ++ suf) ((fun _ => Cb.same) :: outCbs (proxyCallbacks c cfg kv)) = .replace m := by
+    have := runCallbacksT_fst (serBytes e k.id ++ suf) (plainT (fun _ => Cb.same) :: proxyCallbacks c cfg kv)
+    rw [hrunT] at this
+    exact this.symm
+  have hl : containerMin ≤ (pre ++ serBytes e k.id ++ suf).length := by
+    rw [List.length_append, List.length_append, c01_serBytes_length]
+    show 12 ≤ _
+    omega
+  have hstep := c01_headStep_of_procAt (c01_procAt_ser _ k e suf m he hlen hrun)
+  have hT : onColumnT (plainT (fun _ => Cb.same) :: proxyCallbacks c cfg kv) (pre ++ serBytes e k.id ++ suf) =
+      (.ok (pre ++ m ++ suf) true, 0) := by
+    have hfst := onColumnT_fst (plainT (fun _ => Cb.same) :: proxyCallbacks c cfg kv) (pre ++ serBytes e k.id ++ suf)
+    rw [outCbs_cons, outCb_plainT] at hfst
+    have hcol : onColumn ((fun _ => Cb.same) :: outCbs (proxyCallbacks c cfg kv)) (pre ++ serBytes e k.id ++ suf) =
+        .ok (pre ++ m ++ suf) true := by
+      have := onColumnCompat_container' (outCbs (proxyCallbacks c cfg kv)) k e pre suf m he hlen hrun hpre hsuf
+      rw [onColumnCompat_eq] at this
+      cases hc : onColumn ((fun _ => Cb.same) :: outCbs (proxyCallbacks c cfg kv)) (pre ++ serBytes e k.id ++ suf) with
+      | fatal => rw [hc] at this; cases this
+      | panic => rw [hc] at this; cases this
+      | ok out hit =>
+        have hsc := c01_onColumn_scan ((fun _ => Cb.same) :: outCbs (proxyCallbacks c cfg kv)) _ (by simp) hl
+        have hskip := c01_skip_of_no_tag_byte ((fun _ => Cb.same) :: outCbs (proxyCallbacks c cfg kv)) pre
+          (serBytes e k.id ++ suf) hpre
+        rw [← List.append_assoc] at hskip
+        rw [c01_scan_embedded _ pre (serBytes e k.id) suf m hskip (serBytes_ne_nil e k.id) hstep] at hsc
+        have hs' := c01_skip_of_no_tag_byte ((fun _ => Cb.same) :: outCbs (proxyCallbacks c cfg kv)) suf [] hsuf
+        simp only [List.append_nil] at hs'
+        obtain ⟨hit', hsc'⟩ := c01_scan_plain _ suf hs'
+        rw [hsc', hc] at hsc
+        rw [hsc]
+        simp [ScanOut.prepend]
+    have hsnd : (onColumnT (plainT (fun _ => Cb.same) :: proxyCallbacks c cfg kv) (pre ++ serBytes e k.id ++ suf)).2 = 0 := by
+      rw [onColumnT_snd_of_long _ _ (by simp) hl,
+        scanT_snd_embedded _ pre (serBytes e k.id) suf m hpre hsuf (serBytes_ne_nil e k.id)
+          (by rw [outCbs_cons, outCb_plainT]; exact hstep)]
+      unfold headAlarms
+      rw [c01_startsWith_ser, c01_extractContainer_ser suf he (c01_kindOfId_id k) hlen]
+      simp only [Bool.not_true, Bool.false_eq_true, if_false]
+      rw [hrunT]
+    rw [hcol] at hfst
+    exact Prod.ext hfst hsnd
+  unfold proxyOnColumn onColumnCompatT
+  simp only [hT]
+  simp
+
+
+/-- the wrapper's `OnAcraStruct`/`OnAcraBlock` with the proxy's callback stack returns a bare envelope
+unchanged when neither the poison keys nor the client's keys open its serialized form -/
+theorem onBare_stack_same (c : CryptoOps) (cfg : PoisonCfg) (kv : KeyView) (id : UInt8) (bare : Bytes) (hb : bare ≠ [])
+    (hnp : isPoison c cfg.pk (serBytes bare id) = false) (hnd : ∀ m, process c kv (serBytes bare id) ≠ .ok m) :
+    onBare (proxyStack c cfg kv) id bare = .ok bare := by
+  have hd : decryptCallback c kv (serBytes bare id) = .same := by
+    unfold decryptCallback
+    split
+    · next d hd => exact absurd hd (hnd d)
+    · rfl
+  have hp : (poisonCallback c cfg (serBytes bare id)).1 = .same := by
+    rw [poisonCallback_out, hnp]; simp
+  unfold onBare proxyStack
+  rw [c01_serialize_eq id hb]
+  simp only [Out.bind_ok, onCryptoEnvelope, hd, hp]
+  simp
+
+/-- **data that neither the poison keys nor the client's keys open never raises the alarm** -/
+theorem proxyOnColumn_unreadable (c : CryptoOps) (cfg : PoisonCfg) (kv : KeyView) (d : Bytes)
+    (h1 : ∀ i, i < d.length → startsWith containerTag (d.drop i) = true → isPoison c cfg.pk (d.drop i) = false)
+    (h2 : ∀ x id, x <:+: d → x ≠ [] → isPoison c cfg.pk (serBytes x id) = false)
+    (h3 : ∀ x, x <:+: d → x ≠ [] → ∀ m, process c kv (serBytes x idStruct) ≠ .ok m) :
+    (proxyOnColumn c cfg kv d).2 = 0 := by
+  cases hn : (proxyOnColumn c cfg kv d).2 with
+  | zero => rfl
+  | succ n =>
+    exfalso
+    obtain ⟨_, s, hseen, hpo⟩ := proxyOnColumn_alarm c cfg kv d (by omega)
+    rcases hseen with ⟨i, hi, hst, rfl⟩ | ⟨x, hx, hne, rfl⟩ | ⟨o1, x, ho1, hx, hne, rfl⟩
+    · rw [h1 i hi hst] at hpo; cases hpo
+    · rw [h2 x _ hx hne] at hpo; cases hpo
+    · have ho : o1 = d := by
+        split at ho1
+        · cases ho1; rfl
+        · rw [processStructs_same _ d (fun x hx hne =>
+            onBare_stack_same c cfg kv idStruct x hne (h2 x _ hx hne) (h3 x hx hne))] at ho1
+          cases ho1; rfl
+      subst ho
+      rw [h2 x _ hx hne] at hpo; cases hpo
 
 end AcraModel.Envelope
